@@ -2137,13 +2137,17 @@ func expIntValue(mantissa, exponent string) (int64, error) {
 	if !ok {
 		return 0, errors.New("invalid int literal")
 	}
+	// NOTE: zero mantissa denotes 0 whatever the exponent is (neither parse nor compute 10**e)
+	if m.Sign() == 0 {
+		return 0, nil
+	}
 	e, err := strconv.ParseInt(exponent, 10, 64)
 	if err != nil {
 		return 0, err
 	}
 
 	// NOTE: any int64 is less than 1e19
-	if m.Sign() != 0 && e > 19 {
+	if e > 19 {
 		return 0, errors.New("int literal out of range")
 	}
 	// NOTE: mantissa is less than 10**len(mantissa)
